@@ -65,6 +65,9 @@ type Case struct {
 	Resume         string          `json:"resume"` // msg wait_timeout
 	Seed           int64           `json:"seed"`
 	MaxResultChars int             `json:"max_result_chars"`
+	// ViaChild: the node first enters a sub-flow whose only node waits for a message (with a timeout); the router under
+	// test routes when the child run has ended, in the sprint of the resume (a message or the child's timeout)
+	ViaChild bool `json:"via_child,omitempty"`
 }
 
 func exitUUID(i int) string { return world.UUID("exit", i+1) }
@@ -85,6 +88,9 @@ func (c Case) assets() json.RawMessage {
 		exits = append(exits, e)
 	}
 	node["exits"] = exits
+	if c.ViaChild {
+		node["actions"] = append(node["actions"].([]M), M{"uuid": world.UUID("action", 2), "type": "enter_flow", "flow": M{"uuid": world.UUID("flow", 2), "name": "Child Flow"}})
+	}
 	loc := M{}
 	addLoc := func(lang, uuid, prop string, vals []string) {
 		l, _ := loc[lang].(M)
@@ -140,7 +146,21 @@ func (c Case) assets() json.RawMessage {
 	}
 	flow := M{"uuid": world.UUID("flow", 1), "name": "Router Flow", "spec_version": "13.6.0", "language": "eng", "type": "messaging", "revision": 1,
 		"expire_after_minutes": 0, "localization": loc, "nodes": append([]M{node}, nodes...)}
-	as := M{"flows": []M{flow}, "fields": world.FieldDefs, "groups": world.StaticGroups(), "channels": world.Channels(),
+	flowDefs := []M{flow}
+	if c.ViaChild {
+		// child: question -> wait (message or timeout) -> a closing message on the timeout path -> end
+		childCats := []M{{"uuid": world.UUID("category", 901), "name": "All Responses", "exit_uuid": world.UUID("exit", 901)}, {"uuid": world.UUID("category", 902), "name": "No Response", "exit_uuid": world.UUID("exit", 902)}}
+		child := M{"uuid": world.UUID("flow", 2), "name": "Child Flow", "spec_version": "13.6.0", "language": "eng", "type": "messaging", "revision": 1, "expire_after_minutes": 0, "localization": M{},
+			"nodes": []M{
+				{"uuid": world.UUID("node", 901), "actions": []M{{"uuid": world.UUID("action", 901), "type": "send_msg", "text": "child asks"}},
+					"router": M{"type": "switch", "operand": "@input.text", "cases": []M{}, "categories": childCats, "default_category_uuid": world.UUID("category", 901), "result_name": "Child Answer",
+						"wait": M{"type": "msg", "timeout": M{"seconds": 60, "category_uuid": world.UUID("category", 902)}}},
+					"exits": []M{{"uuid": world.UUID("exit", 901)}, {"uuid": world.UUID("exit", 902), "destination_uuid": world.UUID("node", 902)}}},
+				{"uuid": world.UUID("node", 902), "actions": []M{{"uuid": world.UUID("action", 902), "type": "send_msg", "text": "too slow"}}, "exits": []M{{"uuid": world.UUID("exit", 903)}}},
+			}}
+		flowDefs = append(flowDefs, child)
+	}
+	as := M{"flows": flowDefs, "fields": world.FieldDefs, "groups": world.StaticGroups(), "channels": world.Channels(), "locations": world.Locations(),
 		"globals": []M{{"key": "limit", "name": "Limit", "value": "18"}, {"key": "org_name", "name": "Org", "value": "Nyaruka"}}}
 	b, _ := json.Marshal(as)
 	return b
@@ -258,7 +278,7 @@ func reference(c Case, run flows.Run, session flows.Session) (expectation, *harn
 func run(c Case) *harn.Failure {
 	r := c.Router
 	tr := M{"type": "manual", "flow": M{"uuid": world.UUID("flow", 1), "name": "Router Flow"}, "contact": json.RawMessage(c.Contact), "environment": json.RawMessage(c.Env),
-		"triggered_on": scen.SprintTime(0).Add(-time.Minute).Format(time.RFC3339Nano), "params": M{"word": "magic"}}
+		"triggered_on": scen.SprintTime(0).Add(-time.Minute).Format(time.RFC3339Nano), "params": M{"word": "magic", "nlu": M{"name": "Intent", "value": "book_flight", "category": "Success", "extra": M{"intents": []M{{"name": "book_flight", "confidence": 0.7}, {"name": "book_hotel", "confidence": 0.6}}, "entities": M{}}}}}
 	trb, _ := json.Marshal(tr)
 	sc := &scen.Case{Assets: c.assets(), Trigger: trb, Seed: c.Seed, Options: scen.Options{MaxResultChars: c.MaxResultChars}}
 	var runner *scen.Runner
@@ -274,9 +294,9 @@ func run(c Case) *harn.Failure {
 		return harn.Failf("no-go-error", "start returned %v", sp.Err)
 	}
 	routedSprint := 0
-	if r.Wait && r.Type != "none" {
+	if (r.Wait && r.Type != "none") || c.ViaChild {
 		if runner.Session.Status() != flows.SessionStatusWaiting {
-			return harn.Failf("waits", "router has a wait but the session is %s after the first sprint", runner.Session.Status())
+			return harn.Failf("waits", "router (or the child flow it follows) has a wait but the session is %s after the first sprint", runner.Session.Status())
 		}
 		res := M{"type": c.Resume, "resumed_on": scen.SprintTime(1).Add(-time.Second).Format(time.RFC3339Nano)}
 		if c.Resume == "msg" {
@@ -341,6 +361,9 @@ func run(c Case) *harn.Failure {
 	default:
 		stats.Label("route:default")
 	}
+	if c.ViaChild {
+		stats.Label("via-child:" + c.Resume)
+	}
 
 	// compare
 	if r.Type == "none" {
@@ -378,7 +401,9 @@ func run(c Case) *harn.Failure {
 	if cat.Exit%4 != 3 {
 		found := false
 		for _, sg := range segs {
-			if sg.Node().UUID() == flows.NodeUUID(world.UUID("node", 1)) {
+			// after a child run has ended the engine logs the parent's segment with the node it visited last (a node of the
+			// child) - an inconsistency outside this property (recorded in DESIGN.md); the segment is then found by its exit
+			if sg.Node().UUID() == flows.NodeUUID(world.UUID("node", 1)) || (c.ViaChild && string(sg.Exit().UUID()) == wantExit) {
 				found = true
 				if string(sg.Exit().UUID()) != wantExit || string(sg.Destination().UUID()) != destUUID(cat.Exit) {
 					return harn.Failf("segment", "segment from the router node goes by exit %s to %s, want %s to %s", sg.Exit().UUID(), sg.Destination().UUID(), wantExit, destUUID(cat.Exit))
@@ -441,13 +466,20 @@ var menu = []caseMenuItem{
 	{"has_pattern", []string{"^\\d{3}$"}, nil}, {"has_pattern", []string{"(bad"}, nil}, {"has_only_text", []string{"Yes"}, []string{"Oui"}}, {"has_error", nil, nil},
 	{"has_any_word", []string{"@contact.name"}, nil}, {"has_any_word", []string{"@trigger.params.word"}, nil}, {"has_number_lte", []string{"@fields.age"}, nil}, {"has_value", nil, nil},
 	{"has_category", []string{"Red"}, nil}, {"has_group", []string{world.UUID("group", 1), "Testers"}, nil}, {"has_any_word", []string{"red", "extra"}, nil}, {"has_text", []string{"unexpected"}, nil},
+	// the remaining registered tests (every key of cases.XTESTS occurs at least once in this menu: see TestMenuCoversRegistry)
+	{"has_number_gt", []string{"5"}, []string{"50"}}, {"has_date_eq", []string{"2019-05-05"}, nil}, {"has_date_gt", []string{"2000-01-01"}, nil}, {"has_only_phrase", []string{"very good"}, []string{"bien"}},
+	{"has_state", nil, nil}, {"has_district", []string{"Kigali City"}, []string{"Eastern Province"}}, {"has_district", nil, nil}, {"has_ward", []string{"Gasabo", "Kigali City"}, []string{"Centre", "Eastern Province"}},
+	{"has_intent", []string{"book_flight", "0.5"}, []string{"book_hotel", "0.5"}}, {"has_top_intent", []string{"book_flight", "0.5"}, nil}, {"has_top_intent", []string{"book_hotel", "0.9"}, nil},
+	{"has_only_text", []string{"completed"}, nil}, {"has_any_word", []string{"completed expired"}, nil},
+	{"has_group", []string{world.UUID("group", 2)}, nil}, {"has_phone", []string{"RW"}, []string{"US"}}, {"has_number_between", []string{"@fields.age", "@globals.limit"}, nil},
 }
 
-var inputs = []string{"red", "blue", "yes", "no", "5", "18", "20", "hello world", "", "2019-05-05", "bob@nyaruka.com", "0788123123", "it is very good", "start now", "123", "green dark", "magic", "xyzzy", "10:30", "Yes", "rouge", "oui", "Bob", "red blue yes 5", strings.Repeat("long ", 200)}
+var inputs = []string{"red", "blue", "yes", "no", "5", "18", "20", "hello world", "", "2019-05-05", "bob@nyaruka.com", "0788123123", "it is very good", "start now", "123", "green dark", "magic", "xyzzy", "10:30", "Yes", "rouge", "oui", "Bob", "red blue yes 5", strings.Repeat("long ", 200),
+	"Kigali", "kigali city", "Gasabo", "Centre", "Ndera", "gisozi", "East", "very good", "bien", "21", "7", "50 or 51", "2019-05-05 10:00", "5/5/2019", "+12065551212", "vert", "debut"}
 
 func drawCase(t *rapid.T) Case {
 	c := Case{Seed: int64(rapid.IntRange(1, 1000).Draw(t, "seed")), MaxResultChars: rapid.SampledFrom([]int{0, 0, 5, 20}).Draw(t, "maxresult")}
-	env := M{"date_format": "YYYY-MM-DD", "time_format": "tt:mm", "timezone": "UTC", "allowed_languages": rapid.SampledFrom([][]string{{"eng"}, {"eng", "fra"}, {"fra", "eng"}, {"spa", "fra"}, {"fra", "spa"}, {"fra", "spa", "eng"}}).Draw(t, "langs")}
+	env := M{"date_format": "YYYY-MM-DD", "time_format": "tt:mm", "timezone": "UTC", "default_country": "RW", "allowed_languages": rapid.SampledFrom([][]string{{"eng"}, {"eng", "fra"}, {"fra", "eng"}, {"spa", "fra"}, {"fra", "spa"}, {"fra", "spa", "eng"}}).Draw(t, "langs")}
 	contact := M{"uuid": world.UUID("contact", 1), "id": 1, "status": "active", "created_on": "2015-01-01T10:00:00Z", "name": rapid.SampledFrom([]string{"Bob", "Ann", "red"}).Draw(t, "name"),
 		"urns": []string{"tel:+250788123456"}, "fields": M{"age": M{"text": "23", "number": 23}}, "groups": []M{{"uuid": world.UUID("group", 1), "name": "Testers"}}}
 	if l := rapid.SampledFrom([]string{"", "eng", "fra", "spa"}).Draw(t, "clang"); l != "" {
@@ -457,6 +489,7 @@ func drawCase(t *rapid.T) Case {
 	c.Contact, _ = json.Marshal(contact)
 	c.Input = rapid.SampledFrom(inputs).Draw(t, "input")
 	c.Resume = "msg"
+	var drawn []caseMenuItem
 	r := RouterSpec{Default: -1, Timeout: -1}
 	nextExit := 0
 	newCat := func(name string) int {
@@ -485,7 +518,7 @@ func drawCase(t *rapid.T) Case {
 		}
 	default:
 		r.Type = "switch"
-		r.Operand = rapid.SampledFrom([]string{"@input.text", "@input.text", "@input.text", "@fields.age", "@contact.name", "@globals.limit", "@trigger.params.word", "@(1 / 0)", "@input", "plain text", "@(upper(input.text))", "@contact.groups", "@(\"\")"}).Draw(t, "operand")
+		r.Operand = rapid.SampledFrom([]string{"@input.text", "@input.text", "@input.text", "@input.text", "@input.text", "@input.text", "@input.text", "@input.text", "@input.text", "@input.text", "@fields.age", "@contact.name", "@globals.limit", "@trigger.params.word", "@(1 / 0)", "@input", "plain text", "@(upper(input.text))", "@contact.groups", "@(\"\")", "@trigger.params.nlu", "@trigger.params.nlu", "@(title(input.text))"}).Draw(t, "operand")
 		n := rapid.IntRange(0, 6).Draw(t, "ncases")
 		for i := 0; i < n; i++ {
 			item := rapid.SampledFrom(menu).Draw(t, "case")
@@ -496,6 +529,7 @@ func drawCase(t *rapid.T) Case {
 				cat = newCat(rapid.SampledFrom([]string{"Red", "Blue", "Yes", "No", "Match", "Red"}).Draw(t, "catname"))
 			}
 			cs := CaseSpec{UUID: world.UUID("case", i+1), Type: item.typ, Args: item.args, Category: cat}
+			drawn = append(drawn, item)
 			if len(item.args) > 0 {
 				// translated in one of two languages (so that the contact's language, the environment's default and the
 				// base language can be three different ones with a translation in only one of them)
@@ -517,11 +551,20 @@ func drawCase(t *rapid.T) Case {
 			r.Default = newCat("Other")
 		}
 	}
+	if r.Type != "none" && rapid.IntRange(0, 4).Draw(t, "viachild") == 0 {
+		c.ViaChild = true
+		if r.Type == "switch" && rapid.Bool().Draw(t, "childoperand") {
+			r.Operand = rapid.SampledFrom([]string{"@child.status", "@child.status", "@child.results.child_answer.category", "@child.results.child_answer.value", "@child.results.child_answer", "@child"}).Draw(t, "operandchild")
+		}
+		if rapid.Bool().Draw(t, "childtimesout") {
+			c.Resume = "wait_timeout"
+		}
+	}
 	if r.Type != "none" {
 		if rapid.IntRange(0, 2).Draw(t, "hasresult") > 0 {
 			r.ResultName = rapid.SampledFrom([]string{"Color", "Response 1", "age"}).Draw(t, "resultname")
 		}
-		if rapid.IntRange(0, 4).Draw(t, "wait") > 0 {
+		if !c.ViaChild && rapid.IntRange(0, 4).Draw(t, "wait") > 0 {
 			r.Wait = true
 			if rapid.Bool().Draw(t, "timeout") {
 				r.Timeout = newCat("No Response")
@@ -531,9 +574,76 @@ func drawCase(t *rapid.T) Case {
 			}
 		}
 	}
+	// half of the switch cases get an input aimed at one of their cases (uniform inputs leave by the default most of the time)
+	if len(drawn) > 0 && rapid.Bool().Draw(t, "aimed") {
+		c.Input = hitFor(rapid.SampledFrom(drawn).Draw(t, "aimedat"), rapid.Bool().Draw(t, "aimtrans"))
+	}
 	c.Router = r
 	c.NExits = nextExit
 	return c
+}
+
+// hitFor returns a message text that the given case is likely to match (through its base or its translated arguments)
+func hitFor(it caseMenuItem, translated bool) string {
+	arg := ""
+	if len(it.args) > 0 {
+		arg = it.args[0]
+	}
+	if translated && len(it.trans) > 0 {
+		arg = it.trans[0]
+	}
+	switch {
+	case strings.HasPrefix(arg, "@contact"):
+		arg = "Bob"
+	case strings.HasPrefix(arg, "@trigger"):
+		arg = "magic"
+	case strings.HasPrefix(arg, "@"):
+		arg = "18"
+	}
+	switch it.typ {
+	case "has_any_word", "has_all_words", "has_phrase", "has_only_phrase", "has_only_text":
+		return arg
+	case "has_beginning":
+		return arg + " now"
+	case "has_number", "has_number_between", "has_number_lt", "has_number_lte":
+		return "5"
+	case "has_number_eq":
+		return arg
+	case "has_number_gte", "has_number_gt":
+		return "100.5"
+	case "has_date", "has_date_eq", "has_date_gt":
+		return "2019-05-05"
+	case "has_date_lt":
+		return "1999-12-31"
+	case "has_time":
+		return "10:30"
+	case "has_phone":
+		return "0788123123"
+	case "has_email":
+		return "bob@nyaruka.com"
+	case "has_pattern":
+		return "123"
+	case "has_state":
+		return "Kigali"
+	case "has_district":
+		return "Gasabo"
+	case "has_ward":
+		return "Gisozi"
+	}
+	return "hello world"
+}
+
+// TestMenuCoversRegistry: every registered router test occurs in the case menu (a test added to goflow must be added here)
+func TestMenuCoversRegistry(t *testing.T) {
+	seen := map[string]bool{}
+	for _, m := range menu {
+		seen[m.typ] = true
+	}
+	for name := range cases.XTESTS {
+		if !seen[name] {
+			t.Errorf("router test %s is not in the case menu", name)
+		}
+	}
 }
 
 func TestRouting(t *testing.T) {
